@@ -130,6 +130,7 @@ func (s *c18Server) ServeHTTP(w http.ResponseWriter, r *http.Request) {
 	case step == "c":
 		w.Header().Set("WWW-Authenticate", "Negotiate")
 		w.WriteHeader(401)
+		w.Write([]byte("Unauthorised.\n")) // (a challenge has a body, as the library's own wrapper sends one)
 	case step == "f401r":
 		w.Header().Set("WWW-Authenticate", "Negotiate oQcwBaADCgEC")
 		w.WriteHeader(401)
@@ -206,6 +207,11 @@ func TestC18(t *testing.T) {
 		tr := &http.Transport{DialContext: func(ctx context.Context, network, _ string) (net.Conn, error) {
 			return (&net.Dialer{}).DialContext(ctx, network, addr)
 		}, DisableKeepAlives: true} // (a reused connection that is closed makes the transport retry on its own)
+		if i%3 == 2 {
+			// an application that allows itself one connection per host: the challenge's connection is given back
+			// before the authenticated attempt needs one
+			tr.MaxConnsPerHost = 1
+		}
 		hc := &http.Client{Transport: tr, Timeout: 20 * time.Second}
 		scl := spnego.NewClient(kcl, hc, spn)
 		reds := 0
